@@ -678,6 +678,11 @@ class Gen:
                                                    'make_wav "averyveryverylongfilename.wav"', "make_wav", "make_turbo_wav", 'make_wav "a/b/c.WAV"', 'make_wav "", ""', 'make_wav "x", "\\x00"', 'make_wav "\U0001f600"']),
             "type-mismatch": lambda: r.choice(['.byte "abc"', ".ascii 5", ".include 5", ".ident 5", ".blkb \"a\"", ".repeat \"a\" { nop }", ".word 'ab'", "insert_file 5", "make_bin 5", ".link \"a\"", ".list \"a\"", ".ascii a", ".rad50 1",
                                                        ".ident a", "make_wav \"a\", 5", ".byte /abc/", ".word /a/", ".align /a/", ".ascii \"a\" + \"b\"", ".ident \"a\" \"b\"", ".ident <65>", "insert_file \"a\" <65> \"b\"", ".include /a/ /b/"]),
+            "string-chunk-code": lambda: r.choice([".ident <1 _ 37>", ".ident <-1>", ".ident <0x110000>", ".ident <0xd800>", ".ident \"a\" <65> \"b\"", ".ident <65> <66>", "insert_file \"a\" <1 _ 100>",
+                                                    ".include <2147483648.>", ".include <0>", "insert_file <0>", ".include <0xd800>", "insert_file <0xdfff>", "make_bin <0xd800>", "make_raw <0>", "make_wav <65>, <0xd800>",
+                                                    "make_wav \"a\" <0>", "make_bin <-(1 _ 37)>", ".ident <a>\na = 65", ".ident <a>\na:", ".include <a>\na = 0x41", ".ident <.>", ".ident <1/0>", ".ident <r0>", ".ident <\"ab>",
+                                                    ".include \"\\x00\"", "insert_file \"a\\x00b\"", ".include \"" + "x" * 300 + "\"", ".include \"" + "d/" * 200 + "x\"", "insert_file \"\\n\"", ".include \"\u041a.mac\"",
+                                                    "make_bin \"\\x00\"", "make_wav \"\\x00.wav\"", "make_raw \"" + "y" * 300 + "\""]),
             "user-error": lambda: r.choice([".error", ".error something", ".ERROR \u041a", ".error ; x", ".repeat 2 { .error twice }"]),
             "file-errors": lambda: self.file_fault(),
             "self-dependent-base": lambda: r.choice([".link a\na:", ".link . + 2", ".link b - 2\nnop\nb:", ". = e\nnop\ne:", ".link a*2\na:", ".link a/2\n.word 1\na:"]),
